@@ -52,6 +52,26 @@ Section Assoc.
   Qed.
 End Assoc.
 
+Lemma name_eqb_sym a b : name_eqb a b = name_eqb b a.
+Proof.
+  destruct (name_eqb a b) eqn:E.
+  - apply name_eqb_eq in E. subst. symmetry. apply name_eqb_refl.
+  - apply name_eqb_neq in E. symmetry. apply name_eqb_neq. congruence.
+Qed.
+
+Lemma name_eq_dec (a b : name) : {a = b} + {a <> b}.
+Proof. destruct (name_eqb a b) eqn:E; [left; apply name_eqb_eq; exact E | right; apply name_eqb_neq; exact E]. Qed.
+
+(* keyed map over an association list *)
+Lemma assoc_map_keyed {V} (P : name -> bool) (g : V -> V) (l : list (name * V)) k :
+  assoc (map (fun kv => if P (fst kv) then (fst kv, g (snd kv)) else kv) l) k
+  = option_map (fun v => if P k then g v else v) (assoc l k).
+Proof.
+  induction l as [|[m v] l IH]; simpl; [reflexivity|].
+  destruct (P m) eqn:Ep; simpl; destruct (name_eqb m k) eqn:E; try exact IH;
+    apply name_eqb_eq in E; subst; rewrite Ep; reflexivity.
+Qed.
+
 (* ---------------------------------------------------------------- the specification *)
 Section Spec.
   Variable jr : bool.
@@ -72,42 +92,86 @@ Section Spec.
         safe_from ks (run jr st evs) (aset e n (Some b)) rest
     end.
 
-  Lemma all_ok_agree ks st e : all_ok ks st e = true -> agree ks st e.
+  Lemma all_ok_agree ks st e : all_ok ks st e = true <-> agree ks st e.
   Proof.
-    unfold all_ok, key_ok, agree. rewrite forallb_forall. intros H k Hk c Hc.
-    specialize (H k Hk). rewrite forallb_forall in H. apply obytes_eqb_eq. apply H. exact Hc.
+    unfold all_ok, key_ok, agree. rewrite forallb_forall. split.
+    - intros H k Hk c Hc. specialize (H k Hk). rewrite forallb_forall in H. apply obytes_eqb_eq. apply H. exact Hc.
+    - intros H k Hk. apply forallb_forall. intros c Hc. apply obytes_eqb_eq. apply H; assumption.
   Qed.
 
-  Theorem check_from_sound ks : forall sets st e, check_from jr ks st e sets = true -> safe_from ks st e sets.
+  (* soundness AND completeness of the checker *)
+  Theorem check_from_iff ks : forall sets st e, check_from jr ks st e sets = true <-> safe_from ks st e sets.
   Proof.
-    induction sets as [|[[n b] evs] rest IH]; intros st e H; cbn [check_from safe_from] in *.
-    - apply all_ok_agree. exact H.
-    - apply andb_true_iff in H. destruct H as [H H3]. apply andb_true_iff in H. destruct H as [H1 H2].
-      split; [apply all_ok_agree; exact H1|]. split; [|apply IH; exact H3].
-      intros j Hj k Hk Hkn c Hc. rewrite forallb_forall in H2.
-      assert (Hin : In j (seq 0 (S (length evs)))) by (apply in_seq; lia).
-      specialize (H2 j Hin). rewrite forallb_forall in H2. specialize (H2 k Hk).
-      apply orb_true_iff in H2. destruct H2 as [H2|H2]; [apply name_eqb_eq in H2; contradiction|].
-      unfold key_ok in H2. rewrite forallb_forall in H2. apply obytes_eqb_eq. apply H2. exact Hc.
+    induction sets as [|[[n b] evs] rest IH]; intros st e; cbn [check_from safe_from].
+    - apply all_ok_agree.
+    - rewrite !andb_true_iff, all_ok_agree, IH. split.
+      + intros [[H1 H2] H3]. split; [exact H1|]. split; [|exact H3].
+        intros j Hj k Hk Hkn c Hc. rewrite forallb_forall in H2.
+        assert (Hin : In j (seq 0 (S (length evs)))) by (apply in_seq; lia).
+        specialize (H2 j Hin). rewrite forallb_forall in H2. specialize (H2 k Hk).
+        apply orb_true_iff in H2. destruct H2 as [H2|H2]; [apply name_eqb_eq in H2; contradiction|].
+        unfold key_ok in H2. rewrite forallb_forall in H2. apply obytes_eqb_eq. apply H2. exact Hc.
+      + intros (H1 & H2 & H3). split; [split; [exact H1|] | exact H3].
+        apply forallb_forall. intros j Hj. apply in_seq in Hj. apply forallb_forall. intros k Hk.
+        destruct (name_eqb k n) eqn:E; [reflexivity|]. apply name_eqb_neq in E. simpl.
+        apply forallb_forall. intros c Hc. apply obytes_eqb_eq. apply (H2 j ltac:(lia) k Hk E c Hc).
   Qed.
 
-  (* ---------------------------------------------------------------- non-interference *)
+  (* ---------------------------------------------------------------- what a set can do to OTHER keys *)
   Definition on_file (n : name) (e : ev) : Prop :=
-    match e with Mkdir _ => True | Open m | Write m _ | Fsync m | Close m => m = n end.
+    match e with Mkdir _ | FsyncDir _ => True | Open m | Write m _ | Fsync m | Close m => m = n end.
 
-  Lemma apply_other st e n k : on_file n e -> k <> n -> assoc (apply_ev jr st e) k = assoc st k.
+  Definition content (f : fstate) := (f_vol f, f_synced f, f_dirty f).
+
+  Definition stable (k : name) (st st' : pstate) : Prop :=
+    (match assoc (p_files st) k, assoc (p_files st') k with
+     | None, None => True
+     | Some f, Some f' => content f' = content f /\ (f_entry f = true -> f_entry f' = true)
+     | _, _ => False
+     end) /\
+    (forall q b, assoc (p_dirs st) q = Some b -> exists b', assoc (p_dirs st') q = Some b' /\ (b = true -> b' = true)).
+
+  Lemma stable_refl k st : stable k st st.
+  Proof. split; [destruct (assoc (p_files st) k); auto | intros q b H; exists b; auto]. Qed.
+
+  Lemma stable_trans k a b c : stable k a b -> stable k b c -> stable k a c.
   Proof.
-    intros Ho Hne. destruct e as [p|m|m d|m|m]; simpl in *; try reflexivity; subst m.
-    - destruct (assoc st n); apply assoc_aset_other; exact Hne.
-    - destruct (assoc st n); [apply assoc_aset_other; exact Hne | reflexivity].
-    - destruct (assoc st n) as [f|]; [|reflexivity]. destruct (f_dur f); [apply assoc_aset_other; exact Hne|].
-      destruct jr; apply assoc_aset_other; exact Hne.
+    intros [F1 D1] [F2 D2]. split.
+    - destruct (assoc (p_files a) k) as [fa|], (assoc (p_files b) k) as [fb|], (assoc (p_files c) k) as [fc|]; try tauto.
+      destruct F1 as [E1 M1], F2 as [E2 M2]. split; [congruence | auto].
+    - intros q x Hq. destruct (D1 q x Hq) as (y & Hy & My). destruct (D2 q y Hy) as (z & Hz & Mz). exists z. auto.
   Qed.
 
-  Lemma run_other n k : k <> n -> forall evs st, Forall (on_file n) evs -> assoc (run jr st evs) k = assoc st k.
+  Lemma dirs_same_stable k st st' : p_dirs st' = p_dirs st -> assoc (p_files st') k = assoc (p_files st) k -> stable k st st'.
+  Proof. intros Hd Hf. split; [rewrite Hf; destruct (assoc (p_files st) k); auto | rewrite Hd; intros q b H; exists b; auto]. Qed.
+
+  Lemma apply_stable st e n k : on_file n e -> k <> n -> stable k st (apply_ev jr st e).
   Proof.
-    intros Hne. induction evs as [|e evs IH]; intros st H; simpl; [reflexivity|].
-    inversion H; subst. rewrite IH by assumption. apply (apply_other st e n k); assumption.
+    intros Ho Hne. destruct e as [p|m|m d|m|m|p]; simpl in *; try subst m.
+    - destruct (assoc (p_dirs st) p) eqn:E; [apply stable_refl|]. split; cbn [p_files p_dirs].
+      + destruct (assoc (p_files st) k); auto.
+      + intros q b Hq. exists b. split; [|auto]. rewrite assoc_aset_other; [exact Hq|]. intros ->. congruence.
+    - destruct (assoc (p_files st) n); apply dirs_same_stable; cbn [p_files p_dirs]; try reflexivity; apply assoc_aset_other; exact Hne.
+    - destruct (assoc (p_files st) n); [|apply stable_refl]. apply dirs_same_stable; cbn [p_files p_dirs]; [reflexivity | apply assoc_aset_other; exact Hne].
+    - destruct (assoc (p_files st) n) as [f|]; [|apply stable_refl].
+      destruct jr; [|apply dirs_same_stable; cbn [p_files p_dirs]; [reflexivity | apply assoc_aset_other; exact Hne]].
+      unfold sync_ancestors. cbn [p_files p_dirs]. split; cbn [p_files p_dirs].
+      + rewrite assoc_aset_other by exact Hne. destruct (assoc (p_files st) k); auto.
+      + intros q b Hq. rewrite (assoc_map_keyed (fun q => existsb (name_eqb q) (ancestors n)) (fun _ => true)), Hq. simpl.
+        destruct (existsb (name_eqb q) (ancestors n)); eexists; split; try reflexivity; auto.
+    - apply stable_refl.
+    - unfold sync_children. split; cbn [p_files p_dirs].
+      + rewrite (assoc_map_keyed (fun k => name_eqb (parent k) p) set_entry).
+        destruct (assoc (p_files st) k) as [f|]; simpl; [|exact I].
+        destruct (name_eqb (parent k) p); [split; [reflexivity | reflexivity] | auto].
+      + intros q b Hq. rewrite (assoc_map_keyed (fun q => name_eqb (parent q) p) (fun _ => true)), Hq. simpl.
+        destruct (name_eqb (parent q) p); eexists; split; try reflexivity; auto.
+  Qed.
+
+  Lemma run_stable n k : k <> n -> forall evs st, Forall (on_file n) evs -> stable k st (run jr st evs).
+  Proof.
+    intros Hne. induction evs as [|e evs IH]; intros st H; simpl; [apply stable_refl|].
+    inversion H; subst. eapply stable_trans; [apply (apply_stable st e n k); assumption | apply IH; assumption].
   Qed.
 
   Lemma forall_firstn {A} (P : A -> Prop) j : forall l, Forall P l -> Forall P (firstn j l).
@@ -120,128 +184,415 @@ Section Spec.
       repeat (apply Forall_app; split); repeat constructor.
   Qed.
 
-  Lemma set_on_file fl uf bs dirs n b : Forall (on_file n) (set_trace fl uf bs dirs n b).
+  Lemma set_on_file fl uf sd bs st n b : Forall (on_file n) (set_trace fl uf sd bs st n b).
   Proof.
-    unfold set_trace. apply Forall_app. split; [|apply core_on_file].
-    apply Forall_forall. intros e He. apply in_map_iff in He. destruct He as (p & <- & _). exact I.
+    unfold set_trace. apply Forall_app. split; [|apply Forall_app; split; [apply core_on_file|]].
+    - apply Forall_forall. intros e He. apply in_map_iff in He. destruct He as (p & <- & _). exact I.
+    - match goal with |- context [if ?c then _ else _] => destruct c end; [|constructor].
+      apply Forall_forall. intros e He. apply in_map_iff in He. destruct He as (p & <- & _). exact I.
   Qed.
 
-  (* T17.isolation: whatever the flags, the variant, the payload and the instant, the events of a set on
-     key n leave every crash candidate of every other key exactly as it was *)
-  Theorem isolation fl uf bs dirs n b st j k : k <> n ->
-    cands_of (run jr st (firstn j (set_trace fl uf bs dirs n b))) k = cands_of st k.
+  (* every ancestor directory of every file is a known directory *)
+  Definition dirs_closed (st : pstate) : Prop :=
+    forall k f, assoc (p_files st) k = Some f -> forall p, In p (ancestors k) -> assoc (p_dirs st) p <> None.
+
+  Lemma stable_reachable k st st' f f' :
+    stable k st st' -> assoc (p_files st) k = Some f -> assoc (p_files st') k = Some f' ->
+    (forall p, In p (ancestors k) -> assoc (p_dirs st) p <> None) ->
+    reachable st k f = true -> reachable st' k f' = true.
   Proof.
-    intros Hne. unfold cands_of. rewrite (run_other n k Hne); [reflexivity|].
-    apply forall_firstn. apply set_on_file.
+    intros [F D] Hf Hf' Hcl Hr. rewrite Hf, Hf' in F. destruct F as [_ Me].
+    unfold reachable in *. apply andb_true_iff in Hr. destruct Hr as [He Hd]. apply andb_true_iff. split; [auto|].
+    rewrite forallb_forall in *. intros p Hp. specialize (Hd p Hp). unfold dir_durable in *.
+    destruct (assoc (p_dirs st) p) as [b|] eqn:Eb; [|exfalso; exact (Hcl p Hp Eb)].
+    destruct (D p b Eb) as (b' & Hb' & Mb). rewrite Hb'. auto.
   Qed.
 
-  (* ---------------------------------------------------------------- durability of the model's traces *)
-  Lemma run_app a : forall st b, run jr st (a ++ b) = run jr (run jr st a) b.
+  (* T17.isolation: whatever the flags, the variant, the payload and the instant, the events of a set on key n
+     add no crash outcome to any other key (they can only remove the outcome "name lost") *)
+  Theorem isolation fl uf sd bs st st0 n b j k : k <> n -> dirs_closed st ->
+    incl (cands_of (run jr st (firstn j (set_trace fl uf sd bs st0 n b))) k) (cands_of st k).
+  Proof.
+    intros Hne Hcl.
+    pose proof (run_stable n k Hne _ st (forall_firstn _ j _ (set_on_file fl uf sd bs st0 n b))) as Hs.
+    set (st' := run jr st (firstn j (set_trace fl uf sd bs st0 n b))) in *.
+    unfold cands_of. pose proof Hs as Hs2. destruct Hs as [F D].
+    destruct (assoc (p_files st) k) as [f|] eqn:Ef, (assoc (p_files st') k) as [f'|] eqn:Ef'; try tauto; [|apply incl_refl].
+    destruct F as [Ec Me].
+    assert (Hcc : content_cands f' = content_cands f).
+    { unfold content_cands. unfold content in Ec. inversion Ec as [[E1 E2 E3]]. rewrite E1, E2, E3. reflexivity. }
+    rewrite Hcc. destruct (reachable st k f) eqn:Er.
+    - rewrite (stable_reachable k st st' f f' Hs2 Ef Ef' (Hcl k f Ef) Er). apply incl_refl.
+    - destruct (reachable st' k f'); [apply incl_appr, incl_refl | apply incl_refl].
+  Qed.
+End Spec.
+
+(* ---------------------------------------------------------------- durability of the model's traces *)
+Section Durable.
+  Variable jr : bool.
+  Notation run := (run jr).
+  Notation apply_ev := (apply_ev jr).
+
+  Lemma run_app a : forall st b, run st (a ++ b) = run (run st a) b.
   Proof. induction a as [|e a IH]; intros st b; simpl; [reflexivity | apply IH]. Qed.
 
-  Lemma run_mkdirs l : forall st, run jr st (map Mkdir l) = st.
-  Proof. induction l as [|p l IH]; intros st; simpl; [reflexivity | apply IH]. Qed.
+  Lemma existsb_name l q : existsb (name_eqb q) l = true <-> In q l.
+  Proof.
+    rewrite existsb_exists. split.
+    - intros (x & Hx & E). apply name_eqb_eq in E. subst. exact Hx.
+    - intros H. exists q. split; [exact H | apply name_eqb_refl].
+  Qed.
+
+  (* mkdir of directories that do not exist yet *)
+  Lemma mkdirs_spec : forall miss st,
+    p_files (run st (map Mkdir miss)) = p_files st /\
+    forall q, assoc (p_dirs (run st (map Mkdir miss))) q =
+              match assoc (p_dirs st) q with
+              | Some b => Some b
+              | None => if existsb (name_eqb q) miss then Some false else None
+              end.
+  Proof.
+    induction miss as [|p miss IH]; intros st; simpl.
+    - split; [reflexivity|]. intros q. destruct (assoc (p_dirs st) q); reflexivity.
+    - destruct (IH (apply_ev st (Mkdir p))) as [Hf Hd]. simpl in Hf, Hd. split.
+      + rewrite Hf. destruct (assoc (p_dirs st) p); reflexivity.
+      + intros q. rewrite Hd. destruct (assoc (p_dirs st) p) as [bp|] eqn:Ep; cbn [p_dirs].
+        * destruct (assoc (p_dirs st) q) eqn:Eq; [reflexivity|].
+          destruct (name_eqb q p) eqn:E; [apply name_eqb_eq in E; subst; congruence | reflexivity].
+        * destruct (name_eq_dec q p) as [->|Hne].
+          -- rewrite assoc_aset_same, Ep, name_eqb_refl. reflexivity.
+          -- rewrite assoc_aset_other by exact Hne. apply name_eqb_neq in Hne. rewrite Hne. reflexivity.
+  Qed.
+
+  (* fsync of a list of directories *)
+  Lemma chain_spec : forall ch st,
+    (forall k, match assoc (p_files st) k, assoc (p_files (run st (map FsyncDir ch))) k with
+               | None, None => True
+               | Some f, Some f' => content f' = content f /\
+                                    f_entry f' = f_entry f || existsb (name_eqb (parent k)) ch
+               | _, _ => False
+               end) /\
+    (forall q, assoc (p_dirs (run st (map FsyncDir ch))) q =
+               option_map (fun b => b || existsb (name_eqb (parent q)) ch) (assoc (p_dirs st) q)).
+  Proof.
+    induction ch as [|p ch IH]; intros st; simpl.
+    - split; [intros k; destruct (assoc (p_files st) k); [rewrite orb_false_r; auto | exact I]|].
+      intros q. destruct (assoc (p_dirs st) q); simpl; [rewrite orb_false_r|]; reflexivity.
+    - destruct (IH (sync_children st p)) as [Hf Hd]. split.
+      + intros k. specialize (Hf k). unfold sync_children in Hf at 1. cbn [p_files] in Hf.
+        rewrite (assoc_map_keyed (fun k => name_eqb (parent k) p) set_entry) in Hf.
+        destruct (assoc (p_files st) k) as [f|]; simpl in Hf; [|exact Hf].
+        destruct (assoc (p_files (run (sync_children st p) (map FsyncDir ch))) k) as [f'|]; [|exact Hf].
+        destruct Hf as [Hc He].
+        destruct (name_eqb (parent k) p); simpl in *; split; auto. rewrite He, orb_true_r. reflexivity.
+      + intros q. rewrite Hd. unfold sync_children. cbn [p_dirs].
+        rewrite (assoc_map_keyed (fun q => name_eqb (parent q) p) (fun _ => true)).
+        destruct (assoc (p_dirs st) q) as [b|]; simpl; [|reflexivity].
+        destruct (name_eqb (parent q) p); simpl; [rewrite orb_true_r; reflexivity | reflexivity].
+  Qed.
 
   Definition good_payload (fl : bool) (bs : Z) (b : bytes) : Prop := fl = true \/ direct bs b = true \/ b = [].
 
-  (* the directory entry of n gets durable at fsync: always when journalled, else only if it already is *)
-  Definition entry_ok (st : pstate) (n : name) : Prop :=
-    jr = true \/ exists f d, assoc st n = Some f /\ f_dur f = Some d.
-
-  Lemma core_final fl bs n b st : good_payload fl bs b -> entry_ok st n ->
-    assoc (run jr st (core_trace fl true bs n b)) n = Some (mkF b (Some b) false).
+  (* open/write/fsync/close of file n: its final state, and what happens to the directories *)
+  Lemma core_final fl bs n b st : good_payload fl bs b ->
+    let st' := run st (core_trace fl true bs n b) in
+    let e0 := match assoc (p_files st) n with Some f => f_entry f | None => false end in
+    assoc (p_files st') n = Some (mkF b (Some b) false (e0 || jr)) /\
+    (forall q, assoc (p_dirs st') q =
+               option_map (fun x => if jr && existsb (name_eqb q) (ancestors n) then true else x) (assoc (p_dirs st) q)).
   Proof.
-    intros Hg He.
-    assert (Hopen : exists d, assoc (apply_ev jr st (Open n)) n = Some (mkF [] d true) /\ (jr = true \/ exists x, d = Some x)).
-    { simpl. destruct He as [He|(f & d & Hf & Hd)].
-      - destruct (assoc st n) as [f|]; rewrite assoc_aset_same; eexists; split; try reflexivity; left; exact He.
-      - rewrite Hf, assoc_aset_same. eexists. split; [reflexivity|]. right. exists d. exact Hd. }
-    destruct Hopen as (d & Ho & Hd).
-    set (st1 := apply_ev jr st (Open n)) in *.
-    assert (Hsync : forall s v, assoc s n = Some (mkF v d true) ->
-              assoc (apply_ev jr s (Fsync n)) n = Some (mkF v (Some v) false)).
-    { intros s v Hs. simpl. rewrite Hs. cbn [f_dur f_vol].
-      destruct d as [x|]; [apply assoc_aset_same|].
-      destruct Hd as [->|(x & Hx)]; [apply assoc_aset_same | discriminate]. }
-    assert (Hwrite : forall s, assoc s n = Some (mkF [] d true) -> assoc (apply_ev jr s (Write n b)) n = Some (mkF b d true)).
-    { intros s Hs. simpl. rewrite Hs. cbn [f_vol f_dur]. simpl. apply assoc_aset_same. }
+    intros Hg. cbn zeta.
+    set (e0 := match assoc (p_files st) n with Some f => f_entry f | None => false end).
+    assert (Hopen : exists s0, assoc (p_files (apply_ev st (Open n))) n = Some (mkF [] s0 true e0) /\
+                               p_dirs (apply_ev st (Open n)) = p_dirs st).
+    { unfold e0. simpl. destruct (assoc (p_files st) n) as [f|]; cbn [p_files p_dirs]; rewrite assoc_aset_same; eexists; split; reflexivity. }
+    destruct Hopen as (s0 & Ho & Hod).
+    set (st1 := apply_ev st (Open n)) in *.
+    assert (Hwrite : forall s, assoc (p_files s) n = Some (mkF [] s0 true e0) ->
+              assoc (p_files (apply_ev s (Write n b))) n = Some (mkF b s0 true e0) /\ p_dirs (apply_ev s (Write n b)) = p_dirs s).
+    { intros s Hs. simpl. rewrite Hs. cbn [p_files p_dirs f_vol f_synced f_entry]. rewrite assoc_aset_same. auto. }
+    assert (Hsync : forall s v, assoc (p_files s) n = Some (mkF v s0 true e0) ->
+              assoc (p_files (apply_ev s (Fsync n))) n = Some (mkF v (Some v) false (e0 || jr)) /\
+              (forall q, assoc (p_dirs (apply_ev s (Fsync n))) q =
+                         option_map (fun x => if jr && existsb (name_eqb q) (ancestors n) then true else x) (assoc (p_dirs s) q))).
+    { intros s v Hs. simpl. rewrite Hs. cbn [f_vol f_entry]. destruct jr; cbn [andb].
+      - unfold sync_ancestors. cbn [p_files p_dirs]. rewrite assoc_aset_same. split; [reflexivity|].
+        intros q. apply (assoc_map_keyed (fun q => existsb (name_eqb q) (ancestors n)) (fun _ => true)).
+      - cbn [p_files p_dirs]. rewrite assoc_aset_same. split; [reflexivity|]. intros q. destruct (assoc (p_dirs s) q); reflexivity. }
     unfold core_trace, buffered. cbn [andb].
     destruct (direct bs b) eqn:Ed; cbn [negb andb app].
-    - (* Open; Write; Fsync; Close *)
-      cbn [run]. fold st1. apply Hsync. apply Hwrite. exact Ho.
+    - cbn [Model.run]. fold st1. destruct (Hwrite st1 Ho) as [Hw Hwd]. destruct (Hsync _ b Hw) as [Hs Hsd].
+      split; [exact Hs|]. intros q. rewrite Hsd, Hwd, Hod. reflexivity.
     - destruct (0 <? zlen b) eqn:Ez; cbn [andb].
       + destruct Hg as [->|[Hg|Hg]]; [| congruence | subst b; discriminate].
-        cbn [negb app run]. fold st1. apply Hsync. apply Hwrite. exact Ho.
+        cbn [negb app Model.run]. fold st1. destruct (Hwrite st1 Ho) as [Hw Hwd]. destruct (Hsync _ b Hw) as [Hs Hsd].
+        split; [exact Hs|]. intros q. rewrite Hsd, Hwd, Hod. reflexivity.
       + assert (b = []) as ->.
         { apply Z.ltb_ge in Ez. unfold zlen in Ez. destruct b; [reflexivity | simpl in Ez; lia]. }
-        destruct fl; cbn [negb andb app run]; fold st1; apply Hsync; exact Ho.
+        destruct fl; cbn [negb andb app Model.run]; fold st1; destruct (Hsync _ [] Ho) as [Hs Hsd];
+          (split; [exact Hs|]); intros q; rewrite Hsd, Hod; reflexivity.
   Qed.
 
-  Lemma set_final fl bs dirs n b st : good_payload fl bs b -> entry_ok st n ->
-    assoc (run jr st (set_trace fl true bs dirs n b)) n = Some (mkF b (Some b) false).
-  Proof. intros Hg He. unfold set_trace. rewrite run_app, run_mkdirs. apply core_final; assumption. Qed.
+  (* ---- the chain of directories ---- *)
+  Lemma from_top_self x : forall l, In x l -> In x (from_top x l).
+  Proof.
+    induction l as [|y l IH]; intros H; [destruct H|]. simpl.
+    destruct (name_eqb y x) eqn:E; [exact H|]. destruct H as [->|H]; [rewrite name_eqb_refl in E; discriminate | apply IH; exact H].
+  Qed.
+
+  Lemma from_top_filter (P : name -> bool) top rest : forall l, filter P l = top :: rest ->
+    forall x, In x (filter P l) -> In x (from_top top l).
+  Proof.
+    induction l as [|y l IH]; simpl; intros H x Hx; [discriminate|].
+    destruct (P y) eqn:Ep.
+    - inversion H; subst. rewrite name_eqb_refl. destruct Hx as [->|Hx]; [left; reflexivity|].
+      right. apply filter_In in Hx. tauto.
+    - destruct (name_eqb y top) eqn:E.
+      + apply name_eqb_eq in E. subst y. assert (In top (filter P l)) by (rewrite H; left; reflexivity).
+        apply filter_In in H0. destruct H0 as [_ H0]. congruence.
+      + apply IH; assumption.
+  Qed.
+
+  Lemma from_top_app_l top x : forall l1 l2, In x (from_top top l1) -> In x (from_top top (l1 ++ l2)).
+  Proof.
+    induction l1 as [|y l1 IH]; intros l2 H; [destruct H|]. simpl in *.
+    destruct (name_eqb y top); [|apply IH; exact H]. destruct H as [->|H]; [left; reflexivity | right; apply in_or_app; left; exact H].
+  Qed.
+
+  Lemma from_top_app_r top y : forall l1 l2, In top l1 -> In y l2 -> In y (from_top top (l1 ++ l2)).
+  Proof.
+    induction l1 as [|z l1 IH]; intros l2 H Hy; [destruct H|]. simpl.
+    destruct (name_eqb z top) eqn:E; [right; apply in_or_app; right; exact Hy|].
+    destruct H as [->|H]; [rewrite name_eqb_refl in E; discriminate | apply IH; assumption].
+  Qed.
+
+  Lemma chain_covers n top x : In x (from_top top (path n)) -> existsb (name_eqb (parent x)) (sync_chain n top) = true.
+  Proof. intros H. apply existsb_name. unfold sync_chain. apply in_rev. rewrite rev_involutive. apply in_map. exact H. Qed.
+
+  Lemma missing_in_ancestors dirs n q : In q (missing_dirs dirs n) -> In q (ancestors n) /\ ~ In q dirs.
+  Proof.
+    unfold missing_dirs. intros H. apply filter_In in H. destruct H as [H1 H2]. split; [exact H1|].
+    intros Hin. apply existsb_name in Hin. rewrite Hin in H2. discriminate.
+  Qed.
+
+  Lemma ancestor_missing_or_known dirs n q : In q (ancestors n) -> In q (missing_dirs dirs n) \/ In q dirs.
+  Proof.
+    intros H. destruct (existsb (name_eqb q) dirs) eqn:E; [right; apply existsb_name; exact E|].
+    left. unfold missing_dirs. apply filter_In. split; [exact H | rewrite E; reflexivity].
+  Qed.
+
+  (* ---- the settled states ---- *)
+  Definition clean (st : pstate) : Prop :=
+    (forall k f, assoc (p_files st) k = Some f -> f_dirty f = false /\ (exists c, f_synced f = Some c) /\ f_entry f = true) /\
+    (forall q b, assoc (p_dirs st) q = Some b -> b = true) /\
+    dirs_closed st.
+
+  Definition value_of (st : pstate) (k : name) : option bytes :=
+    match assoc (p_files st) k with Some f => f_synced f | None => None end.
+
+  Lemma clean_cands st k : clean st -> cands_of st k = [value_of st k].
+  Proof.
+    intros (Hf & Hd & _). unfold cands_of, value_of. destruct (assoc (p_files st) k) as [f|] eqn:E; [|reflexivity].
+    destruct (Hf k f E) as (H1 & (c & H2) & H3).
+    assert (Hr : reachable st k f = true).
+    { unfold reachable. rewrite H3. simpl. apply forallb_forall. intros p _. unfold dir_durable.
+      destruct (assoc (p_dirs st) p) as [b|] eqn:Eb; [apply (Hd p b Eb) | reflexivity]. }
+    rewrite Hr. unfold content_cands. rewrite H1, H2. reflexivity.
+  Qed.
+
+  Lemma in_keys_assoc {V} (l : list (name * V)) q : In q (map fst l) <-> assoc l q <> None.
+  Proof.
+    induction l as [|[m v] l IH]; simpl; [split; [tauto | congruence]|].
+    destruct (name_eqb m q) eqn:E.
+    - apply name_eqb_eq in E. split; [congruence | auto].
+    - apply name_eqb_neq in E. rewrite <- IH. split; [intros [H|H]; [contradiction | exact H] | auto].
+  Qed.
+
+  (* one completed set from a settled state gives a settled state holding the new value *)
+  Lemma set_keeps_clean fl sd bs st n b :
+    good_payload fl bs b -> (jr = true \/ sd = true) -> clean st ->
+    let st' := run st (set_trace fl true sd bs st n b) in
+    clean st' /\ value_of st' n = Some b /\ forall k, k <> n -> value_of st' k = value_of st k.
+  Proof.
+    intros Hg Hv (Cf & Cd & Cc). cbn zeta.
+    pose proof (run_stable jr n) as Hstab.
+    set (T := set_trace fl true sd bs st n b).
+    assert (Hon : Forall (on_file n) T) by apply set_on_file.
+    (* decompose the run *)
+    unfold T, set_trace. set (miss := missing_dirs (map fst (p_dirs st)) n).
+    set (newfile := match assoc (p_files st) n with None => true | Some _ => false end).
+    set (chain := if sd && true && (newfile || negb (match miss with [] => true | _ => false end))
+                  then map FsyncDir (sync_chain n (match miss with top :: _ => top | [] => n end)) else []).
+    assert (Hmiss : miss = missing_dirs (map fst (p_dirs st)) n) by reflexivity. clearbody miss.
+    rewrite !run_app.
+    destruct (mkdirs_spec miss st) as [Mf Md].
+    set (st1 := run st (map Mkdir miss)) in *.
+    destruct (core_final fl bs n b st1 Hg) as [Kf Kd]. cbn zeta in Kf, Kd. rewrite Mf in Kf.
+    set (st2 := run st1 (core_trace fl true bs n b)) in *.
+    set (e0 := match assoc (p_files st) n with Some f => f_entry f | None => false end) in *.
+    (* the final state in terms of st2 *)
+    assert (Hfin : exists ch, run st2 chain = run st2 (map FsyncDir ch) /\
+              (sd = true -> (newfile = true \/ miss <> []) ->
+               (forall q, In q miss -> existsb (name_eqb (parent q)) ch = true) /\ existsb (name_eqb (parent n)) ch = true)).
+    { unfold chain. destruct sd; cbn [andb].
+      - destruct (newfile || negb (match miss with [] => true | _ => false end)) eqn:Ec.
+        + eexists. split; [reflexivity|]. intros _ _. split.
+          * intros q Hq. apply chain_covers. destruct miss as [|top rest]; [destruct Hq|].
+            apply from_top_app_l.
+            apply (from_top_filter (fun p => negb (existsb (name_eqb p) (map fst (p_dirs st)))) top rest);
+              [symmetry; exact Hmiss | change (In q (missing_dirs (map fst (p_dirs st)) n)); rewrite <- Hmiss; exact Hq].
+          * apply chain_covers. destruct miss as [|top rest].
+            -- apply from_top_self. unfold path. apply in_or_app. right. left. reflexivity.
+            -- apply from_top_app_r; [|left; reflexivity].
+               assert (In top (missing_dirs (map fst (p_dirs st)) n)) by (rewrite <- Hmiss; left; reflexivity).
+               apply missing_in_ancestors in H. tauto.
+        + exists []. split; [reflexivity|]. intros _ [H|H].
+          * rewrite H in Ec. discriminate.
+          * destruct miss; [contradiction | rewrite orb_true_r in Ec; discriminate].
+      - exists []. split; [reflexivity|]. intros H. discriminate. }
+    destruct Hfin as (ch & Hrun & Hcov). rewrite Hrun.
+    destruct (chain_spec ch st2) as [Xf Xd].
+    set (st3 := run st2 (map FsyncDir ch)) in *.
+    (* stability of the other keys over the whole trace *)
+    assert (Hst : forall k, k <> n -> stable k st st3).
+    { intros k Hk. rewrite <- Hrun. unfold st2, st1. rewrite <- !run_app. apply Hstab; [exact Hk|].
+      apply Forall_app; split; [apply Forall_forall; intros e He; apply in_map_iff in He; destruct He as (p & <- & _); exact I|].
+      apply Forall_app; split; [apply core_on_file|]. unfold chain.
+      match goal with |- context [if ?c then _ else _] => destruct c end; [|constructor].
+      apply Forall_forall; intros e He; apply in_map_iff in He; destruct He as (p & <- & _); exact I. }
+    (* file n at the end *)
+    assert (Hn : exists f, assoc (p_files st3) n = Some f /\ content f = (b, Some b, false) /\ f_entry f = true).
+    { specialize (Xf n). rewrite Kf in Xf. destruct (assoc (p_files st3) n) as [f|]; [|contradiction].
+      destruct Xf as [Xc Xe]. exists f. split; [reflexivity|]. split; [exact Xc|]. rewrite Xe. cbn [f_entry].
+      destruct jr; [rewrite orb_true_r; reflexivity|]. rewrite orb_false_r.
+      destruct (assoc (p_files st) n) as [f0|] eqn:E0.
+      - unfold e0. destruct (Cf n f0 E0) as (_ & _ & He). rewrite He. reflexivity.
+      - destruct Hv as [Hv|Hv]; [discriminate|]. destruct (Hcov Hv) as [_ Hp]; [left; unfold newfile; reflexivity|].
+        rewrite Hp. apply orb_true_r. }
+    (* directories at the end *)
+    assert (Hdirs : forall q, assoc (p_dirs st3) q =
+              match assoc (p_dirs st) q with
+              | Some x => Some ((if jr && existsb (name_eqb q) (ancestors n) then true else x) || existsb (name_eqb (parent q)) ch)
+              | None => if existsb (name_eqb q) miss
+                        then Some ((if jr && existsb (name_eqb q) (ancestors n) then true else false) || existsb (name_eqb (parent q)) ch)
+                        else None
+              end).
+    { intros q. rewrite Xd, Kd, Md. destruct (assoc (p_dirs st) q); [reflexivity|]. destruct (existsb (name_eqb q) miss); reflexivity. }
+    split; [split; [|split]|split].
+    - (* files clean *)
+      intros k f Hk. destruct (name_eq_dec k n) as [->|Hne].
+      + destruct Hn as (f1 & H1 & H2 & H3). rewrite H1 in Hk. inversion Hk; subst f1. unfold content in H2. injection H2 as E1 E2 E3.
+        split; [exact E3|]. split; [exists b; exact E2 | exact H3].
+      + destruct (Hst k Hne) as [F _]. rewrite Hk in F. destruct (assoc (p_files st) k) as [f0|] eqn:E0; [|contradiction].
+        destruct F as [Ec Me]. destruct (Cf k f0 E0) as (D1 & (c & D2) & D3). unfold content in Ec. injection Ec as E1 E2 E3.
+        split; [congruence|]. split; [exists c; congruence | auto].
+    - (* directories durable *)
+      intros q x Hq. rewrite Hdirs in Hq. destruct (assoc (p_dirs st) q) as [y|] eqn:Ey.
+      + inversion Hq. rewrite (Cd q y Ey). destruct (jr && existsb (name_eqb q) (ancestors n)); reflexivity.
+      + destruct (existsb (name_eqb q) miss) eqn:Em; [|discriminate]. inversion Hq. apply existsb_name in Em.
+        pose proof Em as Em2. rewrite Hmiss in Em2. destruct (missing_in_ancestors _ _ _ Em2) as [Ha _]. destruct Hv as [->|Hv].
+        * cbn [andb]. rewrite (proj2 (existsb_name _ _) Ha). reflexivity.
+        * destruct (Hcov Hv) as [Hq' _]; [right; intros E; rewrite E in Em; destruct Em|]. rewrite (Hq' q Em). apply orb_true_r.
+    - (* closure *)
+      intros k f Hk p Hp. rewrite Hdirs. destruct (name_eq_dec k n) as [->|Hne].
+      + destruct (ancestor_missing_or_known (map fst (p_dirs st)) n p Hp) as [H|H].
+        * rewrite <- Hmiss in H. destruct (assoc (p_dirs st) p); [discriminate|]. rewrite (proj2 (existsb_name _ _) H). discriminate.
+        * apply in_keys_assoc in H. destruct (assoc (p_dirs st) p); [discriminate | contradiction].
+      + destruct (Hst k Hne) as [F _]. rewrite Hk in F. destruct (assoc (p_files st) k) as [f0|] eqn:E0; [|contradiction].
+        pose proof (Cc k f0 E0 p Hp) as H. destruct (assoc (p_dirs st) p); [discriminate | contradiction].
+    - unfold value_of. destruct Hn as (f1 & H1 & H2 & _). rewrite H1. unfold content in H2. injection H2 as E1 E2 E3. exact E2.
+    - intros k Hne. unfold value_of. destruct (Hst k Hne) as [F _].
+      destruct (assoc (p_files st) k) as [f0|], (assoc (p_files st3) k) as [f3|]; try tauto.
+      destruct F as [Ec _]. unfold content in Ec. injection Ec as E1 E2 E3. exact E2.
+  Qed.
+End Durable.
+
+Section Main.
+  Variable jr : bool.
 
   Lemma exp_aset_same e n v : exp_of (aset e n v) n = v.
   Proof. unfold exp_of. rewrite assoc_aset_same. reflexivity. Qed.
   Lemma exp_aset_other e n k v : k <> n -> exp_of (aset e n v) k = exp_of e k.
   Proof. intros H. unfold exp_of. rewrite assoc_aset_other by exact H. reflexivity. Qed.
 
-  (* every key reads exactly its expected value in every crash image *)
-  Definition settled (st : pstate) (e : expect) : Prop := forall k, cands_of st k = [exp_of e k].
-
-  Lemma settled_agree ks st e : settled st e -> agree ks st e.
-  Proof. intros H k _ c Hc. rewrite H in Hc. destruct Hc as [<-|[]]. reflexivity. Qed.
-
-  Theorem sets_safe fl bs ks : forall sets dirs st e,
-    settled st e ->
-    Forall (fun nb => good_payload fl bs (snd nb) /\ entry_ok st (fst nb)) sets ->
-    safe_from ks st e (sets_trace fl true bs dirs sets).
+  (* T17.durable: every sequence of sets (any keys, any payloads) from a settled state is crash safe *)
+  Theorem sets_safe fl sd bs ks : forall sets st e,
+    clean st -> (forall k, exp_of e k = value_of st k) -> (jr = true \/ sd = true) ->
+    Forall (fun nb => good_payload fl bs (snd nb)) sets ->
+    safe_from jr ks st e (sets_trace jr fl true sd bs st sets).
   Proof.
-    induction sets as [|[n b] sets IH]; intros dirs st e Hs Hall; cbn [sets_trace safe_from].
-    - apply settled_agree. exact Hs.
-    - inversion Hall as [|? ? [Hg He] Hrest]; subst. cbn [fst snd] in *.
-      split; [apply settled_agree; exact Hs|]. split.
-      + intros j _ k _ Hkn c Hc. rewrite isolation in Hc by exact Hkn. rewrite Hs in Hc. destruct Hc as [<-|[]]. reflexivity.
-      + apply IH.
-        * intros k. destruct (name_eqb k n) eqn:E.
-          -- apply name_eqb_eq in E. subst k. unfold cands_of. rewrite set_final by assumption.
-             rewrite exp_aset_same. reflexivity.
-          -- apply name_eqb_neq in E. rewrite exp_aset_other by exact E.
-             pose proof (isolation fl true bs dirs n b st (length (set_trace fl true bs dirs n b)) k E) as Hi.
-             rewrite firstn_all in Hi. rewrite Hi. apply Hs.
-        * apply Forall_forall. intros [m c] Hm. rewrite Forall_forall in Hrest. destruct (Hrest _ Hm) as [Hg' He'].
-          split; [exact Hg'|]. cbn [fst snd] in *. destruct He' as [He'|(f & d & Hf & Hd)]; [left; exact He'|].
-          destruct (name_eqb m n) eqn:E.
-          -- apply name_eqb_eq in E. subst m. right. eexists. exists b. split; [apply set_final; assumption | reflexivity].
-          -- apply name_eqb_neq in E. right. exists f, d. split; [|exact Hd].
-             rewrite (run_other n m E); [exact Hf | apply set_on_file].
+    induction sets as [|[n b] sets IH]; intros st e Hc Hm Hv Hall; cbn [sets_trace safe_from].
+    - intros k _ c Hin. rewrite (clean_cands st k Hc) in Hin. destruct Hin as [<-|[]]. symmetry. apply Hm.
+    - inversion Hall as [|? ? Hg Hrest]; subst. cbn [snd] in Hg.
+      split; [intros k _ c Hin; rewrite (clean_cands st k Hc) in Hin; destruct Hin as [<-|[]]; symmetry; apply Hm|].
+      split.
+      + intros j _ k _ Hkn c Hin.
+        apply (isolation jr fl true sd bs st st n b j k Hkn (proj2 (proj2 Hc))) in Hin.
+        rewrite (clean_cands st k Hc) in Hin. destruct Hin as [<-|[]]. symmetry. apply Hm.
+      + destruct (set_keeps_clean jr fl sd bs st n b Hg Hv Hc) as (Hc' & Hn & Ho).
+        apply IH; [exact Hc' | | exact Hv | exact Hrest].
+        intros k. destruct (name_eq_dec k n) as [->|Hne].
+        * rewrite exp_aset_same. symmetry. exact Hn.
+        * rewrite exp_aset_other by exact Hne. rewrite Ho by exact Hne. apply Hm.
   Qed.
 
-  Lemma settled_empty : settled [] [].
-  Proof. intros k. reflexivity. Qed.
-End Spec.
+  Lemma clean_empty : clean empty_state.
+  Proof. split; [|split]; intros k f H; discriminate. Qed.
+End Main.
 
 (* ---------------------------------------------------------------- closing over the regenerated flags *)
-Lemma journalled_safe_flag (uf fl : bool) : uf = true -> fl = true ->
-  forall bs ks dirs sets, safe_from true ks [] [] (sets_trace fl uf bs dirs sets).
+Lemma all_good_flush bs (sets : list (name * bytes)) : Forall (fun nb => good_payload true bs (snd nb)) sets.
+Proof. apply Forall_forall. intros nb _. left. reflexivity. Qed.
+
+(* both persistence variants, first-time keys included: needs use_fsync, the flush and the directory syncs *)
+Lemma safe_flag (uf fl sd : bool) : uf = true -> fl = true -> sd = true ->
+  forall jr bs ks sets, safe_from jr ks empty_state [] (sets_trace jr fl uf sd bs empty_state sets).
 Proof.
-  intros -> -> bs ks dirs sets. apply sets_safe; [apply settled_empty|].
-  apply Forall_forall. intros nb _. split; [left; reflexivity | left; reflexivity].
+  intros -> -> -> jr bs ks sets. apply sets_safe; [apply clean_empty | intros k; reflexivity | right; reflexivity | apply all_good_flush].
+Qed.
+
+(* from any settled state (a directory found at opening whose contents are durable) *)
+Lemma safe_from_state_flag (uf fl sd : bool) : uf = true -> fl = true -> sd = true ->
+  forall jr bs ks st e sets, clean st -> (forall k, exp_of e k = value_of st k) ->
+  safe_from jr ks st e (sets_trace jr fl uf sd bs st sets).
+Proof.
+  intros -> -> -> jr bs ks st e sets Hc Hm. apply sets_safe; [exact Hc | exact Hm | right; reflexivity | apply all_good_flush].
+Qed.
+
+(* journalled variant without the directory syncs *)
+Lemma journalled_safe_flag (uf fl : bool) : uf = true -> fl = true ->
+  forall sd bs ks sets, safe_from true ks empty_state [] (sets_trace true fl uf sd bs empty_state sets).
+Proof.
+  intros -> -> sd bs ks sets. apply sets_safe; [apply clean_empty | intros k; reflexivity | left; reflexivity | apply all_good_flush].
 Qed.
 
 Lemma large_safe_flag (uf : bool) : uf = true ->
-  forall fl bs ks dirs sets, Forall (fun nb => direct bs (snd nb) = true) sets ->
-  safe_from true ks [] [] (sets_trace fl uf bs dirs sets).
+  forall fl sd bs ks sets, Forall (fun nb => direct bs (snd nb) = true) sets ->
+  safe_from true ks empty_state [] (sets_trace true fl uf sd bs empty_state sets).
 Proof.
-  intros -> fl bs ks dirs sets H. apply sets_safe; [apply settled_empty|].
-  apply Forall_forall. intros nb Hnb. rewrite Forall_forall in H. split; [right; left; apply H; exact Hnb | left; reflexivity].
+  intros -> fl sd bs ks sets H. apply sets_safe; [apply clean_empty | intros k; reflexivity | left; reflexivity|].
+  apply Forall_forall. intros nb Hnb. rewrite Forall_forall in H. right. left. apply H. exact Hnb.
 Qed.
 
-Lemma strict_safe_flag (uf fl : bool) : uf = true -> fl = true ->
-  forall bs ks dirs st e sets, settled st e ->
-  Forall (fun nb => exists f d, assoc st (fst nb) = Some f /\ f_dur f = Some d) sets ->
-  safe_from false ks st e (sets_trace fl uf bs dirs sets).
+(* ---------------------------------------------------------------- what can happen to the key in flight *)
+Lemma prefixes_spec : forall v p, In p (prefixes v) -> exists r, v = p ++ r.
 Proof.
-  intros -> -> bs ks dirs st e sets Hs H. apply sets_safe; [exact Hs|].
-  apply Forall_forall. intros nb Hnb. rewrite Forall_forall in H. split; [left; reflexivity | right; apply H; exact Hnb].
+  induction v as [|x v IH]; intros p H; simpl in H.
+  - destruct H as [<-|[]]. exists []. reflexivity.
+  - destruct H as [<-|H]; [exists (x :: v); reflexivity|].
+    apply in_map_iff in H. destruct H as (q & <- & Hq). destruct (IH q Hq) as (r & ->). exists r. reflexivity.
+Qed.
+
+(* the content a crash can leave of a file whose name survives: the content last fsynced, or a byte prefix of what
+   has been written since the truncation, or (torn in-place overwrite) such a prefix laid over the fsynced content *)
+Theorem content_cands_shape f x : In x (content_cands f) ->
+  f_synced f = Some x \/
+  exists p r, f_vol f = p ++ r /\ (x = p \/ exists old, f_synced f = Some old /\ x = overlay p old).
+Proof.
+  unfold content_cands. intros H. apply in_app_or in H. destruct H as [H|H].
+  - destruct (f_synced f) as [c|]; [|destruct H]. destruct H as [<-|[]]. left. reflexivity.
+  - destruct (f_dirty f); [|destruct H]. apply in_app_or in H. destruct H as [H|H].
+    + destruct (prefixes_spec _ _ H) as (r & Hr). right. exists x, r. auto.
+    + destruct (f_synced f) as [old|]; [|destruct H]. apply in_map_iff in H. destruct H as (p & <- & Hp).
+      destruct (prefixes_spec _ _ Hp) as (r & Hr). right. exists p, r. split; [exact Hr|]. right. exists old. auto.
 Qed.
